@@ -68,7 +68,7 @@ Proof.
 Qed.
 
 Definition ogbest (o : option (list (sx * Q))) (n : nat) : option (list (res sx)) :=
-  match o with Some d => Some (get_n_best Qle_bool d n) | None => None end.
+  option_map (fun d => get_n_best Qle_bool d n) o.
 
 Theorem oconv_scale {B} (k : Q) (image : B -> option (list (sx * Q))) (votes : list (B * Q)) (n : nat) : (0 < k)%Q ->
   ogbest (oconv image (scale_w k votes)) n = ogbest (oconv image votes) n.
@@ -76,7 +76,7 @@ Proof.
   intros Hk. unfold oconv.
   rewrite (forallb_fst (fun b => match image b with Some _ => true | None => false end) (scale_w k votes) votes
              (scale_w_fst k votes)).
-  destruct (forallb _ votes); [|reflexivity]. cbn [ogbest]. f_equal. apply (additive_scale sx_eqb k Hk).
+  destruct (forallb _ votes); [|reflexivity]. unfold ogbest. cbn [option_map]. f_equal. apply (additive_scale sx_eqb k Hk).
 Qed.
 
 (* the candidate set of a profile does not depend on the weights *)
